@@ -158,6 +158,13 @@ def main(argv=None):
         results = run_workers(pid, mod, specs, args.jobs, tmp, args.tier)
         agg = merge(results)
         entries = kf.load(HOME)
+        if getattr(mod, "WORKER_DEATH_IS_VIOLATION", False):
+            for spec, dump, status, err in results:
+                if status.startswith("died") or status == "no-output":
+                    v = {"property": pid, "sub": "worker_died", "fields": {"status": status.split()[0]},
+                         "detail": {"spec": spec, "stderr_tail": err[-1500:]}, "case": None, "shard": -1}
+                    agg["violations"].append(v)
+                    agg["vio_counts"][json.dumps([pid, "worker_died", v["fields"]], sort_keys=True)] += 1
 
         # ---- classify --------------------------------------------------------------
         known_hits: dict[str, dict] = {}
@@ -194,17 +201,17 @@ def main(argv=None):
                     continue
                 seen_cls.add(cls)
                 todo.append(v)
-                if len(todo) >= 4:
+                if len(todo) >= 8:
                     break
             rspecs = [{"replay": v["case"], "seed": args.seed, "tier": args.tier} for v in todo]
             rres = run_workers(pid, mod, rspecs, args.jobs, tmp, args.tier) if rspecs else []
             for v, (spec, dump, status, err) in zip(todo, rres):
                 again = [w for w in (dump or {}).get("violations", []) if w["sub"] == v["sub"]]
                 (confirmed if again or status != "ok" else flaky).append(v)
-            # witnesses that carry no replayable case are reported as they are
-            confirmed.extend(v for v in unlisted if v.get("case") is None and v not in confirmed)
-            if not confirmed and not flaky:
-                confirmed = unlisted[:]
+            # witnesses that were not re-executed (no replayable case, or beyond the cap) are reported as they are
+            flaky_cls = {json.dumps([v["sub"], v["fields"]], sort_keys=True) for v in flaky}
+            tested = {id(v) for v in todo}
+            confirmed.extend(v for v in unlisted if id(v) not in tested and json.dumps([v["sub"], v["fields"]], sort_keys=True) not in flaky_cls)
         else:
             confirmed = unlisted[:]
 
